@@ -18,6 +18,9 @@ var c16MaxW = math.NewIntWithDecimal(100, 18)
 func c16Header(h *c16, emit func(string) string, minAlloc, minVP string, e0, e1 string, n1 int, third bool) {
 	emit(fmt.Sprintf("reset %s %s", minAlloc, minVP))
 	next := h.f.App.IncentivesKeeper.GetLastGaugeID(h.f.Ctx) + 1
+	for _, g := range h.baseG {
+		emit(fmt.Sprintf("hdr bgauge %d", g))
+	}
 	emit(fmt.Sprintf("hdr gauge %d asset 1", next))
 	emit(fmt.Sprintf("hdr gauge %d asset 1", next+1))
 	emit(fmt.Sprintf("hdr gauge %d asset 0", next+2))
@@ -91,6 +94,7 @@ func c16Weight(rng *Rng, lo, hi math.Int) math.Int {
 
 func (h *c16) votable() []uint64 {
 	gs := append([]uint64(nil), h.assetG...)
+	gs = append(gs, h.baseG...)
 	gs = append(gs, h.raGauge...)
 	for _, g := range h.eG {
 		if g == h.eG[0] { // perpetual endorsement gauge: votable too (not a rollapp gauge)
@@ -469,7 +473,7 @@ func c16Corpus(h *c16, emit func(string) string, endTrace func()) {
 	dym := c16DYM
 	def := dym.String()
 	next := func() uint64 { return h.f.App.IncentivesKeeper.GetLastGaugeID(h.base) + 1 }
-	g0 := next()     // asset gauges g0, g0+1; endorsement gauges g0+3 (r0, perpetual), g0+4 (r1)
+	g0 := next() // asset gauges g0, g0+1; endorsement gauges g0+3 (r0, perpetual), g0+4 (r1)
 	ra0 := h.raGauge[0]
 	hundred := dym.MulRaw(100).String()
 	half := math.NewIntWithDecimal(50, 18).String()
@@ -566,6 +570,25 @@ func c16Corpus(h *c16, emit func(string) string, endTrace func()) {
 	emit(fmt.Sprintf("vote a0 %d:%s", g0, half))
 	emit("delegate a0 v0 1")
 	emit("undelegate a0 v0 2")
+	emit("end")
+	endTrace()
+
+	// (8) mixed votes: an asset gauge with a LOWER id than the rollapp gauge in the same vote, two voters
+	// on the same rollapp, a re-vote, a hook and a revoke; then claims after the distribution epoch
+	c16Header(h, emit, def, def, hundred, hundred, 2, false)
+	emit("begin 6")
+	emit(fmt.Sprintf("delegate a0 v0 %s", dym.MulRaw(10).AddRaw(7)))
+	emit(fmt.Sprintf("delegate a1 v1 %s", dym.MulRaw(10).AddRaw(3)))
+	emit(fmt.Sprintf("delegate a2 v1 %s", dym.MulRaw(5)))
+	emit(fmt.Sprintf("vote a0 %d:%s,%d:%s", h.baseG[0], half, ra0, half))
+	emit(fmt.Sprintf("vote a1 %d:%s,%d:%s", ra0, half, h.baseG[0], half))
+	emit(fmt.Sprintf("vote a2 %d:%s,%d:%s,%d:%s", h.baseG[0], "30000000000000000001", h.baseG[1], "19999999999999999999", h.raGauge[1], half))
+	emit(fmt.Sprintf("delegate a0 v0 %s", dym.AddRaw(1)))
+	emit("revoke a2")
+	emit("end")
+	emit("begin 604801")
+	emit(fmt.Sprintf("claim a0 %d", g0+3))
+	emit(fmt.Sprintf("claim a1 %d", g0+3))
 	emit("end")
 	endTrace()
 
